@@ -60,10 +60,7 @@ def runOps (st : St) : List String → List String
       -- t simultaneous deletions of one key id: under the store's write lock they are t deletions in some order
       match n.toNat?, t.toNat? with
       | some n, some t =>
-        let step (acc : Store × Nat) (_ : Nat) : Store × Nat :=
-          let r := delete acc.1 n
-          (r.1, match r.2 with | .ok _ => acc.2 + 1 | .error _ => acc.2)
-        let fin := (List.range t).foldl step (st.store, 0)
+        let fin := deleteN st.store n t
         s!"ok={fin.2};fail={t - fin.2}" :: runOps { st with store := fin.1 } ts
       | _, _ => ["bad-op"]
     | ["e", n] =>
